@@ -1,9 +1,15 @@
 package scratch
-import ("testing";"context";"fmt";"os"
- "github.com/bufbuild/protocompile")
+import ("testing";"fmt";"strings";"runtime/debug"
+ "github.com/bufbuild/protocompile/parser"
+ "github.com/bufbuild/protocompile/reporter")
+func try(src string){
+ defer func(){ if p:=recover();p!=nil{ fmt.Printf("PANIC %v  <= %q\n%s\n",p,src,debug.Stack())}}()
+ h:=reporter.NewHandler(reporter.NewReporter(func(e reporter.ErrorWithPos) error { return nil}, nil))
+ root,err:=parser.Parse("f.proto", strings.NewReader(src), h)
+ fmt.Printf("err=%v <= %q\n",err,src)
+ _,err=parser.ResultFromAST(root, true, reporter.NewHandler(reporter.NewReporter(func(e reporter.ErrorWithPos) error { return nil}, nil)))
+ fmt.Println("result err",err)
+}
 func TestS(t *testing.T){
- b,_:=os.ReadFile("/tmp/t.proto")
- c:=protocompile.Compiler{Resolver: protocompile.WithStandardImports(&protocompile.SourceResolver{Accessor: protocompile.SourceAccessorFromMap(map[string]string{"t.proto":string(b)})})}
- _,err:=c.Compile(context.Background(),"t.proto")
- fmt.Println("ERR:",err)
+ try("message A{extensions 1[N,n={}]}")
 }
